@@ -152,16 +152,17 @@ func genArgvFor(g *Gen, profile string, p *ProgDef) []string {
 		}
 		return out
 	case "abbrev":
+		// abbreviations (and exact names) at the root level, optionally a command, then more of
+		// them at the command's level; a spelling used before the command is sometimes used again
+		// after it, where another table decides what it means
 		path := []*CmdDef{p.Root}
 		out := []string{}
-		if len(p.Root.Cmds) > 0 && g.pct(30) {
-			c := p.Root.Cmds[g.r.Intn(len(p.Root.Cmds))]
-			out = append(out, c.Name)
-			path = append(path, c)
-		}
-		vis := visibleOpts(path, p)
-		n := 1 + g.r.Intn(3)
-		for i := 0; i < n && len(vis) > 0; i++ {
+		optToks := []string{}
+		emit := func() {
+			vis := visibleOpts(path, p)
+			if len(vis) == 0 {
+				return
+			}
 			o := vis[g.r.Intn(len(vis))]
 			ks := optKeys(o)
 			key := ks[g.r.Intn(len(ks))]
@@ -169,8 +170,28 @@ func genArgvFor(g *Gen, profile string, p *ProgDef) []string {
 			attach := o.Kind > KIncr && g.pct(60)
 			tok := g.spell(pre, p.Mode, attach, g.valueFor(o.Kind))
 			out = append(out, tok)
+			optToks = append(optToks, tok)
 			if o.Kind > KIncr && !attach && g.pct(80) {
 				out = append(out, g.valueFor(o.Kind))
+			}
+		}
+		first := g.r.Intn(3)
+		if len(p.Root.Cmds) == 0 || !g.pct(45) {
+			first = 1 + g.r.Intn(3)
+		}
+		for i := 0; i < first; i++ {
+			emit()
+		}
+		if len(p.Root.Cmds) > 0 && g.pct(45) {
+			c := p.Root.Cmds[g.r.Intn(len(p.Root.Cmds))]
+			out = append(out, c.Name)
+			path = append(path, c)
+			for i := g.r.Intn(3); i > 0; i-- {
+				if len(optToks) > 0 && g.pct(50) {
+					out = append(out, optToks[g.r.Intn(len(optToks))])
+				} else {
+					emit()
+				}
 			}
 		}
 		return out
